@@ -191,6 +191,33 @@ func systematicC11() []*c11Scenario {
 			}
 		}
 	}
+	// an id whose output file was removed (trimmed) or damaged, then re-stored with identical
+	// content by two writers at once: when both have finished the id must be readable again
+	for _, dd := range [][]byte{d, []byte("ab")} {
+		flip := append([]byte{}, dd...)
+		flip[len(dd)/2] ^= 2
+		for vi, dat := range [][]byte{nil, flip, dd[:len(dd)-1], {}} {
+			for k := 0; k <= 13; k++ {
+				for _, first := range []int{0, 1} {
+					sc := &c11Scenario{Pre: map[string][]byte{"a:" + idHex(0): entryBytes(0, dd, 1700000000000000666)},
+						Clients: [][]c11Call{{{Op: "put", ID: 0, Data: dd}}, {{Op: "put", ID: 0, Data: dd}, {Op: "getbytes", ID: 0}}}}
+					if vi > 0 {
+						sc.Pre["d:"+outHex(dd)] = dat
+					}
+					for i := 0; i < k; i++ {
+						sc.Schedule = append(sc.Schedule, first)
+					}
+					for i := 0; i < 60; i++ {
+						sc.Schedule = append(sc.Schedule, 1-first)
+					}
+					for i := 0; i < 60; i++ {
+						sc.Schedule = append(sc.Schedule, first)
+					}
+					out = append(out, sc)
+				}
+			}
+		}
+	}
 	// goroutines sharing ONE handle, each looking up its own id (stored before, never rewritten),
 	// one running to completion at every operation boundary of the other
 	for _, pair := range [][2]string{{"getbytes", "getbytes"}, {"getfile", "getbytes"}, {"get", "getfile"}, {"getbytes", "get"}} {
@@ -341,7 +368,7 @@ func (rn *c11Runner) runScenario(sc *c11Scenario) (corr, impl, oname string, tag
 			for _, d := range candidates {
 				if strings.Contains(string(v), outHex(d)) {
 					addStored(i, d)
-					if _, ok := sc.Pre["d:"+outHex(d)]; ok {
+					if c, ok := sc.Pre["d:"+outHex(d)]; ok && string(c) == string(d) {
 						preStored[i] = true
 					}
 				}
